@@ -557,6 +557,11 @@ pub fn record_eq_graphs(c1j: &Value, c2j: &Value, how: &str, r1: &str, r2: &str,
         Ok(x) => x,
         Err(_) => return, // building the inputs is not the call under test (C01 / C02 judge it)
     };
+    // the ground truth is Den of the logged diagrams: keep them within what TLC evaluates in seconds
+    let spiders = |g: &quizx::vec_graph::Graph| g.vertices().filter(|&v| g.vertex_type(v) != quizx::graph::VType::B).count();
+    if spiders(&g1) > 14 || spiders(&g2) > 14 {
+        return;
+    }
     tr.group();
     tr.emit(json!({"k": "pairg", "g1": abs(&g1), "g2": abs(&g2), "how": how, "r1": r1, "r2": r2}));
     for phase in [true, false] {
